@@ -4,6 +4,7 @@ CONSTANTS
   ResultsAliased = FALSE
   GetMemberRewinds = FALSE
   LazyScanDiesOnFault = FALSE
+  CloseForgetsPosition = FALSE
   EmitH = TRUE
 SPECIFICATION Spec
 INVARIANT CacheCoherent
